@@ -649,6 +649,23 @@ def sec_groups(rec, patches=None):
                     rec.fact(f"{tag}/{nm}/keys-match-rows", ok_keys, key="C12/groups/key-mismatch", detail={})
 
 
+def replay_collide(cex):
+    with load.real_modules():
+        from acryo import Molecules
+
+        pos = np.array([[-7.0, 2.0, 93.0], [1.0, 5.0, 3.0], [4.0, 4.0, 8.0]])
+        m = Molecules(pos.copy(), features={"score": [0.9, 0.1, 0.5]})
+        bad = {}
+        for name in ("z", "y", "x", "zvec", "yvec", "xvec"):
+            try:
+                m2 = m.with_features(pl.col("score").alias(name))
+            except ValueError:
+                continue
+            if not np.allclose(m2.pos, pos) or not np.allclose(m2.rotvec(), m.rotvec()):
+                bad[name] = {"pos": np.asarray(m2.pos).round(3).tolist()}
+        return len(bad) > 0, {"coordinates_overwritten_by_a_feature_named": bad}
+
+
 def sec_reject(rec, patches=None):
     """inconsistent inputs are rejected rather than silently misaligned"""
     L = _load(patches)
@@ -671,6 +688,29 @@ def sec_reject(rec, patches=None):
             b = MC.Molecules(make_table(MC, 1, [5], prefix="o").mol.pos, make_table(MC, 1, [5], prefix="o").mol.rotator, features={"a": [1], "extra": [2]})
             return a.append(b)
 
+        # a feature named like a coordinate column never replaces the coordinates: with_features either rejects it or stores it as a (later rejected) feature
+        def collide():
+            t = make_table(MC, 3, [2, 0, 1])
+            try:
+                m2 = t.mol.with_features((pl.col("a") + 10).alias("z"), (pl.col("a") * 0).alias("yvec"))
+            except ValueError:
+                return "rejected", t, None
+            return "stored", t, m2
+
+        for pth in explore(collide, max_paths=10):
+            if not pth.ok:
+                rec.fact("reject/with_features(name of a coordinate column)/runs", False, key="C12/reject/coordinate-overwritten", detail={"exc": repr(pth.exc)[:200]}, reproduced=replay_collide({})[0])
+                continue
+            how, t, m2 = pth.result
+            ok = True
+            why = ""
+            if m2 is not None:
+                ids, why = row_ids(m2)
+                ok = ids == t.ids
+            ids0, _ = row_ids(t.mol)
+            ok = ok and ids0 == t.ids
+            rec.fact("reject/with_features(name of a coordinate column) leaves positions and orientations alone", ok, key="C12/reject/coordinate-overwritten", detail={"outcome": how, "why": why},
+                     reproduced=True if ok else replay_collide({})[0])
         expect("append-extra-columns", app, ValueError)
         expect("append-non-molecules", lambda: make_table(MC, 2, [1, 2]).mol.append("x"), TypeError)
         expect("setter-length-mismatch", lambda: setattr(t3().mol, "features", {"a": [1]}), ValueError)
